@@ -138,17 +138,23 @@ func c08PadExtras(docs []vDoc) [][]byte {
 	// the same with the small user document: what sits about one buffer length before the end of the
 	// input is the run of 2-byte runes
 	trunc2 := "zqaxav\n" + strings.Repeat("\u00e9 ", 420) + "\naa bb cc aa bb\xc3"
-	var sb strings.Builder
-	for i := 0; i < 4600; i++ {
-		sb.WriteString("v" + string(rune('a'+i%26)) + string(rune('a'+(i/26)%26)) + string(rune('a'+(i/676)%26)) + "q")
-		if i%11 == 10 {
-			sb.WriteByte('\n')
-		} else {
-			sb.WriteByte(' ')
+	out := [][]byte{[]byte(trunc), []byte(trunc2)}
+	// distinct-word counts just below powers of two (and a few round numbers), so that the license
+	// text itself crosses the next boundary: internal tables that are bounded, rebuilt or re-encoded
+	// at some size
+	for _, n := range []int{206, 462, 950, 974, 1998, 4046, 4950, 8142, 9950, 16334, 32718, 55250, 65486} {
+		var sb strings.Builder
+		for i := 0; i < n; i++ {
+			sb.WriteString("v" + string(rune('a'+i%26)) + string(rune('a'+(i/26)%26)) + string(rune('a'+(i/676)%26)) + string(rune('a'+(i/17576)%26)) + "q")
+			if i%11 == 10 {
+				sb.WriteByte('\n')
+			} else {
+				sb.WriteByte(' ')
+			}
 		}
+		out = append(out, []byte(sb.String()+"\n"+string(d.Bytes)+"\nzqbxav tail"))
 	}
-	big := sb.String() + "\n" + string(d.Bytes) + "\nzqbxav tail"
-	return [][]byte{[]byte(trunc), []byte(trunc2), []byte(big)}
+	return out
 }
 
 func c08Chunks(c *vrep.Ctx) {
@@ -205,9 +211,16 @@ func c08Chunks(c *vrep.Ctx) {
 
 func c08Pads(c *vrep.Ctx) {
 	cl, docs := c08Classifier()
-	inputs := append(c08Inputs(docs, c.Pick(3, 10)), c08PadExtras(docs)...)
+	inputs := c08Inputs(docs, c.Pick(3, 10))
+	nfull := len(inputs) + 2 // the ordinary inputs and the two truncated ones get every pad width
+	inputs = append(inputs, c08PadExtras(docs)...)
+	if !c.Thorough() {
+		inputs = inputs[:len(inputs)-2] // 55 250 and 65 486 distinct words: thorough tier
+	}
+	// the large-vocabulary inputs get pad widths around the buffer boundaries only
+	fewPads := []int{0, 1, 2, 3, 4, 5, 6, 7, 509, 510, 511, 512, 513, 1017, 1018, 1019, 1020, 1021, 1022, 1023, 1024, 1025, 2040, 2041}
 	maxPad := 2*1024 + 8
-	c.R.Rule = fmt.Sprintf("every pad width 0..%d of leading spaces x %d inputs (incl. one ending in a truncated multi-byte sequence right after the last license word and one with 4 600 distinct words) (so that every multi-byte rune and invalid byte crosses the 1020/1024 buffer boundary in every phase); Match(pad+input) must equal Match(input) in every field; non-trivial = distinct (input, pad) cases whose result has a match", maxPad, len(inputs))
+	c.R.Rule = fmt.Sprintf("every pad width 0..%d of leading spaces x %d inputs (incl. one ending in a truncated multi-byte sequence right after the last license word and texts with 206..65 486 distinct words before the license, at 24 pad widths around the buffer boundaries) (so that every multi-byte rune and invalid byte crosses the 1020/1024 buffer boundary in every phase); Match(pad+input) must equal Match(input) in every field; non-trivial = distinct (input, pad) cases whose result has a match", maxPad, len(inputs))
 	c.Bound("max_pad", maxPad)
 	c.Bound("inputs", len(inputs))
 	want := make([]string, len(inputs))
@@ -216,7 +229,12 @@ func c08Pads(c *vrep.Ctx) {
 	}
 	body := func(r *vx.Run) {
 		ii := r.Choose(len(inputs), "input")
-		pad := r.Choose(maxPad+1, "pad")
+		pad := 0
+		if ii < nfull {
+			pad = r.Choose(maxPad+1, "pad")
+		} else {
+			pad = fewPads[r.Choose(len(fewPads), "pad")]
+		}
 		in := append([]byte(strings.Repeat(" ", pad)), inputs[ii]...)
 		got := ""
 		if msg := vPanics(func() { got = vFmt(cl.Match(in)) }); msg != "" {
